@@ -142,6 +142,22 @@ func runC03(r *ev.Run) {
 						rep("bm25.search-error", fmt.Sprintf("query %q: %v", q, err))
 						continue
 					}
+					if rng.IntN(5) == 0 {
+						// the same search object executed again gives the same answer (scores rank by rank; ids may swap
+						// inside exact ties)
+						again, err := s.Execute()
+						if err != nil || len(again) != len(got) {
+							rep("bm25.reexecute-differs", fmt.Sprintf("query %q k=%d: second Execute of the same search object: %d results / err=%v, first %d", q, k, len(again), err, len(got)))
+						} else {
+							for i := range again {
+								if math.Float32bits(again[i].GetScore()) != math.Float32bits(got[i].GetScore()) {
+									rep("bm25.reexecute-differs", fmt.Sprintf("query %q k=%d: second Execute has score %g at rank %d, first %g", q, k, again[i].GetScore(), i, got[i].GetScore()))
+									break
+								}
+							}
+						}
+						r.Count("probes:re-executed-search-object", 1)
+					}
 					if rng.IntN(6) == 0 {
 						// autocut (WithCutoff): a prefix of the same search without it, by scores (ties at equal scores
 						// may come in either order), for every cutoff value; -1 = disabled = the same answer
